@@ -82,6 +82,22 @@ struct ActiveChord<'a, T> {
     delay: u16,
 }
 
+/// Release the key from active chords.
+fn release_key_from_active_chords<T>(achs: &mut HVec<ActiveChord<'_, T>, 10>, j: u16) {
+    achs.iter_mut().for_each(|ach| {
+        if !ach.participating_keys.contains(&j) {
+            return;
+        }
+        ach.remaining_keys_to_release.retain(|pk| *pk != j);
+        if ach.remaining_keys_to_release.is_empty() {
+            ach.status = match ach.status {
+                Unread | UnreadReleased => UnreadReleased,
+                Releasable | Released => Released,
+            }
+        }
+    });
+}
+
 fn tick_ach<T>(acc: &mut ActiveChord<T>) {
     acc.delay = acc.delay.saturating_add(1);
 }
@@ -244,6 +260,13 @@ impl<'a, T> ChordsV2<'a, T> {
 
     fn drain_inputs(&mut self, drainq: &mut SmolQueue, active_layer: u16) {
         if self.ticks_to_ignore_chord > 0 {
+            // Chord activation is skipped, but chords that are already active must still see the
+            // releases of their participants; otherwise they are never released.
+            for qd in self.queue.iter() {
+                if let Event::Release(_, j) = qd.event {
+                    release_key_from_active_chords(&mut self.active_chords, j);
+                }
+            }
             drainq.extend(self.queue.drain(0..));
             return;
         }
@@ -290,19 +313,7 @@ impl<'a, T> ChordsV2<'a, T> {
                 true
             }
             Event::Release(_, j) => {
-                // Release the key from active chords.
-                achs.iter_mut().for_each(|ach| {
-                    if !ach.participating_keys.contains(&j) {
-                        return;
-                    }
-                    ach.remaining_keys_to_release.retain(|pk| *pk != j);
-                    if ach.remaining_keys_to_release.is_empty() {
-                        ach.status = match ach.status {
-                            Unread | UnreadReleased => UnreadReleased,
-                            Releasable | Released => Released,
-                        }
-                    }
-                });
+                release_key_from_active_chords(achs, j);
                 if presses.is_empty() {
                     drainq.push_back(*qd);
                     false
